@@ -10,7 +10,8 @@
 //! which performs, on the state under test A, `zero_rtt_rejected()` (+ discarding the sent-frame
 //! log and the queued `Retransmits`, as `Connection` does) followed by `set_params(p)`, and
 //! creates a twin B = `StreamsState::new(same side / remote limits, A's current send window)`
-//! followed by `set_params(p)`. From then on every op is applied to both A and B.
+//! followed by `set_params(p)` (its sent-frame log starts with as many dead entries as A's, so that
+//! log indices of ops 10/11 mean the same frame on both). From then on every op is applied to both.
 //! Observation of op 20 and of every later op: `[len(a)] ++ a ++ b` where `a`/`b` are the
 //! observations of A and B; for op 20 itself `a`/`b` are the full projections (`observe`) followed
 //! by the summary. Before op 20 observations are exactly those of `flow_send`.
@@ -43,6 +44,8 @@ fn zero_rtt(ops: &Ops) -> Outs {
             a.st.set_params(&p);
             let mut b = Ctx::new(a.side, a.max_remote_uni, a.max_remote_bi, a.st.send_window);
             b.st.set_params(&p);
+            // keep frame indices aligned: the twin's log starts with as many dead entries as A's
+            b.log = a.log.iter().map(|_| None).collect();
             let mut oa = a.observe();
             oa.extend(a.summary());
             let mut ob = b.observe();
